@@ -58,6 +58,9 @@ def run(ctx):
     shared.r_ident(ctx, "R07.ident", (_rm2.get(model).claim_op, _rm2.get(model).release_op),
                    "the name that is stored differs from the name a later release / claim uses")
     shared.r_wire(ctx, "R07.wire")
+    shared.r_present(ctx, "R07.present", ("claim", "release"),
+                     "a release naming \"\" is refused (or ends the claim on another name) and "
+                     "the claim it names stays")
     from .. import roles as _rolesmod
     shared.r_callers(ctx, "R07.callers", _rolesmod.get(model).release_op, ("release",),
                      "a claim is ended although its side sent no release")
@@ -146,13 +149,51 @@ def run(ctx):
                 ctx.ob("R07.writers", construct_of(e), False, e,
                        "a stored nameplate row is rewritten")
     ctx.require("R07.writers", nw, 4, "writes to nameplate_sides / nameplates deletes")
+    # R07.close: the close operation removes a nameplate only as part of removing
+    # its mailbox -- the transaction that deletes the nameplate rows also deletes
+    # the mailboxes row of the operation's own id
+    from ..events import linear_segments, seg_sql
+    nc = 0
+    seen_c = set()
+    for en in model.runtime_entries():
+        for p in model.paths(en):
+            if p.outcome.kind != "return":
+                continue       # an internal error: decided by R17.escape / C09
+            for seg in linear_segments(p.events, "chan"):
+                stmts = list(seg_sql(seg, "chan"))
+                dels = [e for e, _l in stmts if e["stmt"].kind == "delete" and
+                        e["stmt"].table == "nameplates" and
+                        (e["func"] == R.close_op or R.close_op in e["stack"])]
+                if not dels:
+                    continue
+                nc += 1
+                with_box = any(
+                    e["stmt"].kind == "delete" and e["stmt"].table == "mailboxes" and
+                    e["src"]["where_eq"] is not None and
+                    set(e["src"]["where_eq"]) == {"id"} and
+                    is_own_mailbox_id(e["src"]["where_eq"]["id"])
+                    for e, _l in stmts)
+                key = (dels[0]["site"], with_box)
+                if key in seen_c:
+                    continue
+                seen_c.add(key)
+                ctx.ob("R07.close", construct_of(dels[0]) + " [with its mailbox]", with_box,
+                       dels[0], "" if with_box else
+                       "%s deletes the nameplate in a transaction that does not delete the "
+                       "mailbox: the name disappears (and can be re-claimed onto a new "
+                       "mailbox) while nobody released it and its mailbox still exists"
+                       % R.close_op, None if with_box else render_path(p.events))
+    ctx.require("R07.close", nc, 1, "transactions of the close operation that delete nameplates")
     # R07.guard
     h_rel = handler_for(model, "release")
     ng = 0
     for p in handler_paths(model, h_rel):
         upd = None
         sel_after = {}
+        seen_loops = []
         for e, loops in all_events(p):
+            if e["k"] == "loop" and not loops:
+                seen_loops.append(e)
             if e["k"] != "sql" or e["db"] != "chan":
                 continue
             st = e["stmt"]
@@ -173,7 +214,7 @@ def run(ctx):
                     if eq is None or set(eq) != {"nameplates_id"} or \
                             not sel["stmt"].plain_rows:
                         continue
-                    found, ok, text = guards.guard_verdict(e["pc"][len(sel["pc"]):], rows, "claimed")
+                    found, ok, text = guards.guard_verdict(e["pc"][len(sel["pc"]):], rows, "claimed", seen_loops)
                     if found:
                         verdict = (ok, text)
                 if verdict is None:
